@@ -696,16 +696,47 @@ func genSliceDefault(t *rapid.T, f *Field, cfg GenConfig) {
 	f.Default = "[" + strings.Join(f.DefaultElems, ",") + "]"
 }
 
-// genRange draws a range whose ends are small dyadic rationals (exact in float32
-// and float64, so that "inside the range" is unambiguous for every generated
-// literal) and which contains at least one value of the kind.
+// genRange draws a range which contains at least one value of the kind.  Three quarters of the
+// ranges have small dyadic ends (exact in float32 and float64).  One quarter has "hard" ends: for
+// float kinds decimal fractions that no binary float holds exactly (n/10, n/100, n/1000, n/3, n/7;
+// the end *is* the float64 the tag text denotes, and every generated literal is the exact 64-bit
+// spelling of a value of the kind, so "inside the range" stays unambiguous), for integer kinds of 32
+// or more bits integers between 2^24 and 2^52 with low bits set (exact in float64, not in float32).
 func genRange(t *rapid.T, k reflect.Kind) *Range {
 	r := &Range{HasLo: true, HasHi: true}
-	if isFloat(k) {
+	hard := rapid.IntRange(0, 3).Draw(t, "hardends") == 0
+	bits := 0
+	if !isFloat(k) {
+		lo, hi := intBounds(k)
+		bits = hi.BitLen()
+		_ = lo
+	}
+	switch {
+	case hard && isFloat(k):
+		scale := []float64{10, 100, 1000, 3, 7}[rapid.IntRange(0, 4).Draw(t, "scale")]
+		lo := rapid.IntRange(-2000, 2000).Draw(t, "lon")
+		w := rapid.IntRange(1, 300).Draw(t, "wn")
+		r.Lo, r.Hi = float64(lo)/scale, float64(lo+w)/scale
+	case hard && bits >= 31:
+		p := rapid.IntRange(24, min(52, bits-1)).Draw(t, "p")
+		lo := int64(1)<<uint(p) + int64(2*rapid.IntRange(0, 500).Draw(t, "lowbits")+1)
+		if !isUint(k) && rapid.Bool().Draw(t, "neg") {
+			lo = -lo
+		}
+		w := int64(rapid.IntRange(2, 40).Draw(t, "w"))
+		if rapid.Bool().Draw(t, "widebig") {
+			w = int64(1)<<uint(rapid.IntRange(10, p).Draw(t, "wp")) + int64(2*rapid.IntRange(0, 50).Draw(t, "wlow")+1)
+		}
+		_, kmax := intBounds(k)
+		if new(big.Int).Add(big.NewInt(lo), big.NewInt(w)).Cmp(kmax) > 0 || lo+w > 1<<52 {
+			lo, w = lo-w, w // keep the upper end holdable (lo stays far above the kind's minimum)
+		}
+		r.Lo, r.Hi = float64(lo), float64(lo+w)
+	case isFloat(k):
 		lo := rapid.IntRange(-200, 200).Draw(t, "lo4")
 		w := rapid.IntRange(1, 80).Draw(t, "w4")
 		r.Lo, r.Hi = float64(lo)/4, float64(lo+w)/4
-	} else {
+	default:
 		loMin := -50
 		if isUint(k) {
 			loMin = 0
